@@ -20,6 +20,10 @@ type CodeWriter struct {
 	// semiOmitted is true while the last thing a printer did was to leave out an
 	// optional semicolon (no token has been written since)
 	semiOmitted bool
+	// lastInt is true while the buffer ends with text made of decimal digits only
+	// (an integer literal): a dot written right after it would be read as its
+	// fraction point
+	lastInt bool
 	// deferred is the mapping requested for the token about to be written
 	deferred deferredMapping
 }
@@ -50,6 +54,7 @@ func (cw *CodeWriter) write(s string, isToken bool) {
 	}
 	cw.Builder.WriteString(s)
 	cw.lastByte = s[len(s)-1]
+	cw.lastInt = isDigits(s)
 	if isToken {
 		cw.semiOmitted = false
 	}
@@ -71,21 +76,36 @@ func (cw *CodeWriter) restoreSemi(next byte) {
 	case '(', '[', '+', '-', '`':
 		cw.Builder.WriteByte(';')
 		cw.lastByte = ';'
+		cw.lastInt = false
 		if cw.Mapper != nil {
 			cw.Mapper.AdvanceColumn(1)
 		}
 	}
 }
 
+// isDigits reports whether s consists of decimal digits only.
+func isDigits(s string) bool {
+	for i := 0; i < len(s); i++ {
+		if s[i] < '0' || s[i] > '9' {
+			return false
+		}
+	}
+	return len(s) > 0
+}
+
 // separateSigns keeps two adjacent tokens from fusing into another token:
 // `a - -b` must not be written as `a--b`, nor `a + ++b` as `a+++b`. A space is
-// written when the next token starts with the sign the buffer ends with.
+// written when the next token starts with the sign the buffer ends with, and
+// between an integer literal and a dot (`5 .x` is the member x of 5, `5.x` is a
+// malformed number).
 func (cw *CodeWriter) separateSigns(next byte) {
-	if (next != '+' && next != '-') || cw.lastByte != next {
+	signs := (next == '+' || next == '-') && cw.lastByte == next
+	if !signs && !(next == '.' && cw.lastInt) {
 		return
 	}
 	cw.Builder.WriteByte(' ')
 	cw.lastByte = ' '
+	cw.lastInt = false
 	if cw.Mapper != nil {
 		cw.Mapper.AdvanceColumn(1)
 	}
@@ -105,6 +125,7 @@ func (cw *CodeWriter) WriteRune(r rune) {
 	cw.commitMapping()
 	cw.Builder.WriteRune(r)
 	cw.lastByte = byte(r)
+	cw.lastInt = r >= '0' && r <= '9'
 	cw.semiOmitted = false
 	if cw.Mapper == nil {
 		return
